@@ -32,6 +32,7 @@ type Frame struct {
 	rangeMap map[ssa.Value]*Val
 	loopHead map[*ssa.BasicBlock]*loopInfo
 	top      bool
+	curLockArg ssa.Value
 }
 
 type edgeIn struct {
@@ -455,13 +456,17 @@ func (fr *Frame) loadLoc(l *Loc) *Val {
 	}
 	var t Term
 	var baseT types.Type = l.typ
+	var heapTerm Term
 	switch l.kind {
 	case "field":
-		t = sel(vc.heap(fr.st, l.heap, l.hsort), l.idx)
+		heapTerm = vc.heap(fr.st, l.heap, l.hsort)
+		t = sel(heapTerm, l.idx)
 	case "elem":
-		t = sel(sel(vc.heap(fr.st, l.heap, l.hsort), l.idx), l.idx2)
+		heapTerm = vc.heap(fr.st, l.heap, l.hsort)
+		t = sel(sel(heapTerm, l.idx), l.idx2)
 	case "global":
-		t = vc.heap(fr.st, l.heap, l.hsort)
+		heapTerm = vc.heap(fr.st, l.heap, l.hsort)
+		t = heapTerm
 	}
 	if len(l.fpath) > 0 {
 		// l.typ is the final type; walk from the element type
@@ -479,7 +484,7 @@ func (fr *Frame) loadLoc(l *Loc) *Val {
 	}
 	v := fr.mkVal(t, baseT)
 	v.T = vc.define("ld", v.S, v.T)
-	vc.assume(fr.reach, fr.wf(v.T, baseT))
+	vc.assume(fr.reach, fr.wfAlloc(v.T, baseT, vc.allocBound(heapTerm, fr.alloc()), 0))
 	return v
 }
 
